@@ -157,7 +157,17 @@ class ExprMixin:
         if isinstance(op, ast.Div):
             xr, yr = self.coerce(x, TReal), self.coerce(y, TReal)
             self.oblige("safe", "div-zero", yr.z != 0, st, node)
-            return Val(TReal, xr.z / yr.z)
+            ys = z3.simplify(yr.z)
+            if z3.is_rational_value(ys):
+                return Val(TReal, xr.z / yr.z)
+            # division by a non-constant stays uninterpreted (x / 1 == x is the only fact used)
+            f = self.uf("nl_div", z3.RealSort(), z3.RealSort(), z3.RealSort())
+            if "nl_div_axioms" not in self.ghost:
+                self.ghost["nl_div_axioms"] = True
+                av = z3.Real("a!d")
+                self.assumptions.append(z3.ForAll([av], f(av, 1) == av, patterns=[f(av, 1)]))
+                self.trusted.add("x / y for symbolic y is uninterpreted except x / 1 == x")
+            return Val(TReal, f(xr.z, yr.z))
         if isinstance(op, ast.FloorDiv) and t == TInt:
             self.oblige("safe", "div-zero", y.z != 0, st, node)
             return Val(TInt, x.z / y.z)
